@@ -21,6 +21,8 @@ def g_chars(r, alphabet, n, pct=0.15):
     return "".join(g_pct(r) if r.random() < pct else r.choice(alphabet) for _ in range(n))
 def g_len(r): return r.choice([0, 0, 1, 1, 2, 3, 5, 8])
 def g_octet(r):
+    # mostly valid octets at the case splits of the dec-octet rule; sometimes just outside it
+    if r.random() < 0.12: return r.choice(["256", "259", "260", "265", "269", "270", "299", "300", "999", "00", "01", "001", "1000", ""])
     return str(r.choice([0, 1, 9, 10, 99, 100, 199, 200, 249, 250, 255, r.randint(0, 255)]))
 def g_ip4(r): return ".".join(g_octet(r) for _ in range(4))
 def g_h16(r): return "".join(r.choice(HEX) for _ in range(r.randint(1, 4)))
@@ -45,7 +47,10 @@ def g_host(r):
     return g_chars(r, UNRES + SUB, g_len(r))
 def g_authority(r):
     s = ""
-    if r.random() < 0.35: s += g_chars(r, UNRES + SUB + ":", g_len(r)) + "@"
+    k = r.random()
+    if k < 0.25: s += g_chars(r, UNRES + SUB + ":", g_len(r)) + "@"
+    elif k < 0.40:   # "name:password" forms; a digits-only password is first taken for a port by the parser
+        s += r.choice(["", "u", g_chars(r, UNRES, 2, 0)]) + ":" + r.choice(["", "1", "80", "8080", "12a", "a1", "%31"]) + "@"
     s += g_host(r)
     if r.random() < 0.4: s += ":" + "".join(r.choice("0123456789") for _ in range(r.choice([0, 1, 2, 5])))
     return s
@@ -112,5 +117,17 @@ def widen(rng, f):
     cps = dec(f) or []
     if not cps: return enc([rng.choice([0x80, 0xff, 0x100, 0x20ac])])
     i = rng.randrange(len(cps))
-    cps[i] = rng.choice([0x80, 0xe9, 0xff, 0x100, 0x141, 0x20ac, 0x10ffff, ord('a') + 256, ord('/') + 256, ord(':') + 65536])
+    if rng.random() < 0.5:
+        # an alias of the character that stands there: same low byte(s), so any truncation to 8 or 16 bits makes the text look valid
+        cps[i] = cps[i] + rng.choice([0x100, 0x200, 0x10000, 0x100000, 0x7fffff00])
+    else:
+        cps[i] = rng.choice([0x80, 0xe9, 0xff, 0x100, 0x141, 0x20ac, 0x10ffff, ord('a') + 256, ord('/') + 256, ord(':') + 65536])
     return enc(cps)
+
+def widen_all(f, limit=40):
+    """every single-position alias (+256) of a text: systematic version of widen for short texts"""
+    cps = dec(f) or []
+    out = []
+    for i in range(min(len(cps), limit)):
+        c = list(cps); c[i] += 0x100; out.append(enc(c))
+    return out
